@@ -76,9 +76,60 @@ def hemisphere(ctx, crate):
         ctx.report(clause, fn + ":near-hemisphere-only", ok, why, at=b.span, kind="N")
 
 
+def projsin_formulae(ctx, crate):
+    """N: the orthographic projection the ellipse tests work in (`ProjSIN`), read at sample positions
+    with the centre's (lon0, sin b0, cos b0) as the fields of the receiver:
+      proj(l, b) = Some(cos b sin(l - l0), cos b0 sin b - sin b0 cos b cos(l - l0))  iff  the point is in the
+      centre's hemisphere (sin b0 sin b + cos b0 cos b cos(l - l0) > 0), None otherwise;
+      forced_proj_and_distance gives the same (x, y) whatever the hemisphere, and the angular distance."""
+    import math
+    from sym import Engine, show
+    from rules.common import feval, param
+    clause = "projection-formulae"
+    P = "sph_geom::proj::ProjSIN"
+    fns = {"proj": [p_ for p_ in crate.bodies if p_.startswith("<" + P + " as ") and p_.endswith(">::proj")], "forced": [p_ for p_ in crate.bodies if p_ == P + "::forced_proj_and_distance"]}
+    if P not in crate.adts or not fns["proj"] or not fns["forced"]:
+        ctx.undecided(clause, "ProjSIN", "type or methods not found"); return
+    fl = [f["name"] for f in crate.adts[P]["variants"][0]["fields"]]
+    S = ('deref', param('self'))
+    pts = [((1.0, 0.3), (1.2, 0.5)), ((1.0, 0.3), (4.0, -0.2)), ((0.1, -1.2), (6.0, -1.0)), ((3.0, 1.4), (0.5, 1.3)), ((5.5, 0.0), (5.5, 0.0)), ((2.0, 0.7), (2.0 + math.pi, -0.7 + 0.05))]
+    for kind, names in fns.items():
+        fn = names[0]
+        b = ctx.anchor(crate, fn, clause)
+        if b is None: continue
+        e = Engine(crate); r = e.run(fn); ctx.functions |= e.visited_fns
+        bad = []
+        for (l0, b0), (l, bb) in pts:
+            env = {param('lon'): l, param('lat'): bb}
+            for i_, f_ in enumerate(fl):
+                env[('fld', S, i_)] = {"center_lon": l0, "center_lat": b0, "cos_center_lat": math.cos(b0), "sin_center_lat": math.sin(b0)}.get(f_)
+            dot = math.sin(b0) * math.sin(bb) + math.cos(b0) * math.cos(bb) * math.cos(l - l0)
+            wx = math.cos(bb) * math.sin(l - l0); wy = math.cos(b0) * math.sin(bb) - math.sin(b0) * math.cos(bb) * math.cos(l - l0)
+            ret = r.ret if r.returns else None
+            if kind == "proj":
+                g = e.phi_gate.get(ret) if ret is not None and ret[0] == 'phi' else None
+                if g is None: bad.append(("shape", show(ret)[:60] if ret else None)); break
+                c_ = feval(g[0], env, e)
+                some = g[1] if g[1][0] == 'agg' and g[1][2] == 1 else g[2]
+                pol = some is g[1]
+                if c_ is None or not (some[0] == 'agg' and some[3] and some[3][0][0] == 'agg'): bad.append(("shape", show(ret)[:60])); break
+                vis = bool(c_) == pol
+                gx, gy = (feval(t_, env, e) for t_ in some[3][0][3])
+                if vis != (dot > 0) or gx is None or abs(gx - wx) > 1e-13 or abs(gy - wy) > 1e-13: bad.append(((l0, b0, l, bb), (vis, gx, gy), (dot > 0, wx, wy)))
+            else:
+                if ret is None or ret[0] != 'agg' or len(ret[3]) < 2 or ret[3][0][0] != 'agg': bad.append(("shape", show(ret)[:60] if ret else None)); break
+                gx, gy = (feval(t_, env, e) for t_ in ret[3][0][3]); gd = feval(ret[3][1], env, e)
+                gh = feval(ret[3][2], env, e) if len(ret[3]) > 2 else (dot > 0)
+                wd = math.atan2(math.hypot(wx, wy), dot)
+                if gx is None or gd is None or gh is None or abs(gx - wx) > 1e-13 or abs(gy - wy) > 1e-13 or abs(gd - wd) > 1e-12 or bool(gh) != (dot > 0): bad.append(((l0, b0, l, bb), (gx, gy, gd, gh), (wx, wy, wd, dot > 0)))
+        ctx.report(clause, fn + ":orthographic", not bad, "read at %d (centre, position) pairs incl. the far hemisphere: (x, y) = (cos b sin dl, cos b0 sin b - sin b0 cos b cos dl)%s" % (len(pts), ", visible iff the dot product is positive" if kind == "proj" else ", distance = atan2(|(x, y)|, dot)") if not bad else
+                   "at (centre lon, lat, position lon, lat) = %s the code gives %s, the projection is %s" % bad[0] if bad[0][0] != "shape" else "unexpected shape %s" % (bad[0][1],), at=b.span, kind="N")
+
+
 def run(ctx):
     crate = ctx.crate("rel")
     hemisphere(ctx, crate)
+    projsin_formulae(ctx, crate)
     n = guard(ctx, crate)
     ctx.floor("guarded-entry-points", n, 5)
     if ctx.tier == "thorough":
